@@ -249,7 +249,7 @@ func (r *Runner) runPath(solver *Solver, tt *TermTable, j job) (st *Stats, pendi
 					st.Ended++
 				case goPanic:
 					// a panic escaping the harness itself is a harness bug or an unguarded operation
-					inconclusive = append(inconclusive, fmt.Sprintf("uncaught panic in harness: %s trace=%v", x.String(), e.trace))
+					inconclusive = append(inconclusive, fmt.Sprintf("uncaught panic in harness: %s at %s trace=%v", x.String(), e.panicAt, e.trace))
 				case abort:
 					inconclusive = append(inconclusive, x.why)
 				default:
